@@ -2,6 +2,6 @@
 # Runs every seeded change against the quick tier of its own property's check (plus the checks known to be the
 # natural detectors of cross-cutting changes); results go to seeded/<id>/runs.json, the table to seeded/RESULTS.md.
 cd /verif
-declare -A EXTRA=( [C04_1]="C10" [C05_1]="C06" [C05_3]="C06 C07" [C08_3]="C09" [C11_1]="C12" [C11_3]="C12" [C14_1]="C07" [C16_1]="C07 C19" [C18_2]="C07" [C18_3]="C07 C05" [C15_4]="C03" [C02_3]="C01" )
+declare -A EXTRA=( [C04_1]="C10" [C05_1]="C06" [C05_3]="C06 C07" [C08_3]="C09" [C11_1]="C12" [C11_3]="C12" [C14_1]="C07" [C16_1]="C07 C19" [C18_2]="C07" [C18_3]="C07 C05" [C15_4]="C03" [C02_3]="C01" [C01_5]="C07" [C05_5]="C06" [C09_5]="C06" [C08_6]="C16" [C16_5]="C19" [C02_6]="C01" [C03_6]="C15" [C12_6]="C11" )
 for d in seeded/C*/; do id=$(basename $d); p=${id%_*}; rm -f $d/runs.json; python3 tools/seedrun.py $id $p ${EXTRA[$id]} 2>&1 | cut -c1-500; done
 python3 tools/seedreport.py
